@@ -3,8 +3,8 @@
    part of BaseReactor._patcher) and chython/reactor/reactor.py:fix_mapping_overlap. *)
 From Coq Require Import ZArith List Bool Permutation.
 From Model Require Import PyBase Graph Reactor ReactorStage ReactorQueue ReactorPrepared Stereo.
-From Gen Require Import ReactorShape.
-From Proofs Require Import ReactorShapeProofs ReactorProofs ReactorExt ReactorEquiv ReactorCompose StereoProofs ReactorStereo ReactorStereo2 ReactorQueueProofs ReactorQueueComplete ReactorStageEquiv ReactorStates ReactorPreparedProofs.
+From Gen Require Import ReactorShape ReactorBody.
+From Proofs Require Import ReactorShapeProofs ReactorProofs ReactorExt ReactorEquiv ReactorCompose StereoProofs ReactorStereo ReactorStereo2 ReactorQueueProofs ReactorQueueComplete ReactorStageEquiv ReactorStates ReactorPreparedProofs ReactorBodyTie.
 Import ListNotations.
 Open Scope Z_scope.
 
@@ -726,3 +726,32 @@ Theorem C16_multistep_example :
     = ([([10; 20], [11]); ([11; 20], [12])]%Z, None, true).
 Proof. exact multistep_example. Qed.
 Print Assumptions C16_multistep_example.
+
+(* ====================================================================================================
+   round 4: TIE BY TRANSLATION.  Gen.ReactorBody.g_get_deleted is the body of BaseReactor._get_deleted (base.py) translated
+   statement by statement from /repo's source on every run (tools/gen_reactorbody.py: for / while / if-elif-else / continue,
+   set and stack operations, dict subscripts with KeyError, the set comprehension and set(..).difference(..)).
+   ==================================================================================================== *)
+(* the translated source IS the hand-written model, for all inputs (fuel of `while stack:` = one round per atom) *)
+Theorem C16_translated_get_deleted_is_model : forall bonds mapping to_del,
+  g_get_deleted (fuel_walk bonds) to_del bonds mapping = get_deleted bonds mapping to_del.
+Proof. exact g_get_deleted_is_model. Qed.
+Print Assumptions C16_translated_get_deleted_is_model.
+
+(* hence the specification holds of the translated source text itself: never raises (in particular never runs out of fuel)
+   and returns exactly the matched-and-unkept atoms plus the detached pieces *)
+Theorem C16_translated_get_deleted_spec : forall g mapping to_del,
+  sym_graph g = true ->
+  (forall p, In p to_del -> exists v, zget mapping p = Some v /\ In v (keys g)) ->
+  exists r, g_get_deleted (fuel_walk g) to_del g mapping = Ok r /\
+            forall x, In x r <-> deleted_spec g (image mapping to_del) (kept mapping to_del) x.
+Proof. exact g_get_deleted_spec. Qed.
+Print Assumptions C16_translated_get_deleted_spec.
+
+Theorem C16_translated_get_deleted_on_witnesses :
+  g_get_deleted (fuel_walk wit_g) wit_to_del wit_g wit_mapping = Ok [2] /\
+  sorted_res (g_get_deleted (fuel_walk wit2_g) wit2_to_del wit2_g wit2_mapping) = Ok [2; 3; 4; 6] /\
+  g_get_deleted (fuel_walk wit_g) [] wit_g wit_mapping = Ok [] /\
+  g_get_deleted (fuel_walk wit_g) [77] wit_g wit_mapping = Err KeyError.
+Proof. exact g_get_deleted_on_witnesses. Qed.
+Print Assumptions C16_translated_get_deleted_on_witnesses.
